@@ -815,6 +815,8 @@ def st_scheme_case(draw, scheme, max_total=None, max_kw=12):
     cfg = desc.st_config(draw)
     spec = draw(st_db_spec(desc, cfg, max_total, max_kw))
     case = {"scheme": scheme, "cfg": cfg, "db": spec, "seed": draw(st.integers(0, 2 ** 48))}
+    if draw(st.integers(0, 5)) == 0:
+        case["db"]["kw_prng"] = True
     if draw(st.integers(0, 3)) == 0:
         from vlib.drbg import KEY_PATTERNS
         case["key_pattern"] = draw(st.sampled_from(KEY_PATTERNS))   # key bytes with structured ends (line break, NUL, blank, padding ...)
@@ -825,6 +827,17 @@ def prepare(case):
     """case -> (desc, loader, finalized public config dict, db)"""
     desc = DESCS[case["scheme"]]
     db = build_db(case["db"])
+    if case["db"].get("kw_prng") and db:
+        # the application drew this keyword from Python's global `random` module, seeded the way vlib.drbg.entropy seeds it for this
+        # case: a stored keyword equal to what the generator hands out first
+        import random as _random
+        r = _random.Random()
+        r.seed(int.from_bytes(hashlib.sha256(b"rnd:" + repr(case["seed"]).encode()).digest()[:8], "big"))
+        limit = desc.kw_limit(desc.finalize(case["cfg"], db))
+        kw = r.randbytes(min(32, limit))
+        if kw[0] != 0 and kw not in db:
+            first = next(iter(db))
+            db = {(kw if k == first else k): v for k, v in db.items()}
     cfg = public_cfg(desc.finalize(case["cfg"], db))
     return desc, load(case["scheme"]), cfg, db
 
